@@ -33,8 +33,32 @@ def _strategy(shapes):
         return {"D": D, "R": R, "N": N, "dim_b": dim_b, "dim_a": dim_a, "variant": variant, "diag": diag,
                 "p": draw(gen.measure_params("diag_pdf" if diag else "pdf", R, D, draw(st.sampled_from([10.0, 100.0])), extreme=True)),
                 "upd": draw(gen.maybe_update("diag_pdf" if diag else "pdf", R, D)),
-                "x": draw(gen.arr((N, D), -3, 3))}
+                "x": draw(gen.arr((N, D), -3, 3)),
+                # a second, different conditioning set queried on the same object afterwards
+                "k2": draw(st.integers(1, D - 1)), "perm2": list(draw(st.permutations(list(range(D)))))}
     return s()
+
+
+def _product_rule(fails, c, tag, x, a, bb, mu, Sig, R, N):
+    from ..libx import J
+
+    xa, xb = x[:, a], x[:, bb]
+    lj, sj = oracle.mvn_ln(x, mu, Sig)  # [R,N]
+    lm, sm = oracle.mvn_ln(xb, mu[:, bb], Sig[:, bb][:, :, bb])
+    if int(c.R) != R or int(c.Dy) != len(a) or int(c.Dx) != len(bb):
+        fails.append(Failure(tag + ":shape", f"conditional has R={c.R}, Dy={c.Dy}, Dx={c.Dx}; expected {R},{len(a)},{len(bb)}"))
+        return False
+    ok, d = lib(fails, tag + ".condition_on_x", lambda: c.condition_on_x(J(xb)))
+    if ok:
+        if int(d.R) != R * N:
+            fails.append(Failure(tag + ":layout", f"condition_on_x gives R={d.R}, expected {R*N}"))
+        else:
+            ok, ev = lib(fails, tag + ".evaluate_ln", lambda: d.evaluate_ln(J(xa)))
+            if ok:
+                ev = np.asarray(ev).reshape(R, N, N)
+                got = np.stack([ev[:, n, n] for n in range(N)], 1)
+                check(fails, tag + ":product_rule", got, lj - lm, sj + sm)
+    return True
 
 
 def _run(case):
@@ -56,24 +80,16 @@ def _run(case):
     if not ok:
         return fails
     x = np.asarray(case["x"], float)
-    xa, xb = x[:, a], x[:, bb]
-    lj, sj = oracle.mvn_ln(x, mu, Sig)  # [R,N]
-    lm, sm = oracle.mvn_ln(xb, mu[:, bb], Sig[:, bb][:, :, bb])
-    want = lj - lm
-    scale = sj + sm
-    if int(c.R) != R or int(c.Dy) != len(a) or int(c.Dx) != len(bb):
-        fails.append(Failure(tag + ":shape", f"conditional has R={c.R}, Dy={c.Dy}, Dx={c.Dx}; expected {R},{len(a)},{len(bb)}"))
+    if not _product_rule(fails, c, tag, x, a, bb, mu, Sig, R, N):
         return fails
-    ok, d = lib(fails, tag + ".condition_on_x", lambda: c.condition_on_x(J(xb)))
-    if ok:
-        if int(d.R) != R * N:
-            fails.append(Failure(tag + ":layout", f"condition_on_x gives R={d.R}, expected {R*N}"))
-        else:
-            ok, ev = lib(fails, tag + ".evaluate_ln", lambda: d.evaluate_ln(J(xa)))
-            if ok:
-                ev = np.asarray(ev).reshape(R, N, N)
-                got = np.stack([ev[:, n, n] for n in range(N)], 1)
-                check(fails, tag + ":product_rule", got, want, scale)
+    if case.get("perm2"):
+        b2 = list(case["perm2"][:case["k2"]])
+        a2 = sorted(d for d in range(D) if d not in b2)
+        ok2, c2 = lib(fails, "second_query", lambda: p.condition_on(libx.IDX(b2)))
+        if ok2:
+            _product_rule(fails, c2, "second_query", x, a2, b2, mu, Sig, R, N)
+            # and the first conditional is still the same function
+            _product_rule(fails, c, tag + "_after_second_query", x, a, bb, mu, Sig, R, N)
     # parameters vs covariance-form Schur complement
     Saa = Sig[:, a][:, :, a]
     Sab = Sig[:, a][:, :, bb]
